@@ -167,6 +167,35 @@ def residOp (j : Json) : R Json := do
   | .error _ => pure ()
   return Json.mkObj out
 
+/-- the fundamental triangle of the rank-3 form `form3 a b c` (the objects of `GT.C08.triangle_angles`), evaluated
+exactly: the form itself, and for every vertex `k` (fixed by `sᵢ, sⱼ`, `{i,j,k} = {0,1,2}`, `i = k+1`, `j = k+2`
+mod 3) `B(ω_k,ω_k)`, `B(u,w)`, `B(u,u)`, `B(w,w)` for the directions `u, w = tangent B ω_k ω_j`, `tangent B ω_k ω_i`;
+optionally `bil B x y` (`utils.apply_bilinear`) for supplied vectors -/
+def triangleOp (j : Json) : R Json := do
+  let a ← qf j "a"
+  let b ← qf j "b"
+  let c ← qf j "c"
+  let B := (DMat.ofMatrix (form3 a b c)).toMatrix
+  let V : Array (Array ℚ) := ((fins 3).map fun k => (DVec.ofFn (vertex B k)).a).toArray
+  let vs : Fin 3 → Fin 3 → ℚ := fun k a => (V[k.1]!)[a.1]!
+  let mut out : Array Json := #[]
+  for k in fins 3 do
+    let i : Fin 3 := k + 1
+    let jj : Fin 3 := k + 2
+    let u := (DVec.ofFn (tangent B (vs k) (vs jj))).toFn
+    let w := (DVec.ofFn (tangent B (vs k) (vs i))).toFn
+    out := out.push (Json.mkObj [("vertex", ofVec (vs k)), ("norm", ofQ (bil B (vs k) (vs k))),
+      ("uw", ofQ (bil B u w)), ("uu", ofQ (bil B u u)), ("ww", ofQ (bil B w w))])
+  let mut res : List (String × Json) := [("form", ofMat B), ("verts", .arr out)]
+  match j.getObjVal? "x" with
+  | .ok _ =>
+    let x ← vecf 3 j "x"
+    let y ← vecf 3 j "y"
+    res := res ++ [("bil", ofQ (bil B x y))]
+  | .error _ => pure ()
+  return Json.mkObj res
+
 def ops : List (String × Handler) :=
-  [("c08.form", formOp), ("c08.gens", gensOp), ("c08.word", wordOp), ("c08.resid", residOp)]
+  [("c08.form", formOp), ("c08.gens", gensOp), ("c08.word", wordOp), ("c08.resid", residOp),
+   ("c08.triangle", triangleOp)]
 end GT.Driver.C08
